@@ -203,6 +203,8 @@ Proof.
       destruct (transient 4 s2); cbn [bind] in H; [|discriminate].
       inv_ok H. cbn in Hk. eapply free_take; [exact H1|]. eapply IH; eauto.
   - intros _ st c st' H. cbn [lower_stmt] in H. discriminate.
+  - intros a b n o m Hw. discriminate.
+  - intros q ip a b n Hw. discriminate.
   - intros _ st c st' H k Hk. cbn [lower_block] in H. inv_ok H. destruct Hk.
   - intros s IHs b IHb Hp st c st' H k Hk. cbn [bplain] in Hp. apply andb_prop in Hp. destruct Hp as [Hp1 Hp2].
     specialize (IHs Hp1). specialize (IHb Hp2). cbn [lower_block] in H.
